@@ -51,7 +51,7 @@ def errname(e):
 
 
 # ----------------------------------------------------------------------------- real code
-def mk_particles(spec):
+def mk_particles(spec, case=None):
     from sparkx.Particle import Particle
     out = []
     for s in spec:
@@ -60,7 +60,20 @@ def mk_particles(spec):
             if s.get(k) is not None:
                 setattr(p, k, s[k])
         out.append(p)
+    if case is not None:
+        for i, j in case.get("same_object", []):        # one Particle object listed twice: it counts twice in both sums
+            if i < len(out) and j < len(out) and spec[i] == spec[j]:
+                out[j] = out[i]
+        if case.get("container") == "ndarray":          # the documented alternative to a list
+            arr = np.empty(len(out), dtype=object)
+            arr[:] = out
+            return arr
     return out
+
+
+def harm(case, key):
+    v = case[key]
+    return np.int64(v) if (case.get("n_as") == "np" and isinstance(v, int)) else v
 
 
 def mk_lattice(case):
@@ -85,7 +98,7 @@ def run_impl(case):
                         ec.eccentricity(case["n"], case["m"]) if pv["kind"] == "lattice" else ec.eccentricity(case["n"], case["m"], case["weight"])
                     except Exception:
                         pass
-                    ec.set_event_data(mk_particles(case["particles"]))
+                    ec.set_event_data(mk_particles(case["particles"], case))
                 elif case.get("moved_from"):
                     # one object, one list of Particle objects: evaluated once where the particles were before, then the SAME
                     # objects are moved in place (x, y setters) to their final positions and the object is asked again
@@ -98,9 +111,9 @@ def run_impl(case):
                     for pobj, spec in zip(plist, case["particles"]):
                         pobj.x, pobj.y = spec["x"], spec["y"]
                 else:
-                    ec = EventCharacteristics(mk_particles(case["particles"]))
-                v = ec.eccentricity(case["n"], case["m"], case["weight"]) if not case.get("direct") else \
-                    ec.eccentricity_from_particles(case["n"], case["m"], case["weight"])
+                    ec = EventCharacteristics(mk_particles(case["particles"], case))
+                v = ec.eccentricity(harm(case, "n"), case["m"], case["weight"]) if not case.get("direct") else \
+                    ec.eccentricity_from_particles(harm(case, "n"), case["m"], case["weight"])
             else:
                 if case.get("late_fill"):
                     # the wrapper is bound to the lattice first; the densities are filled in (in place) afterwards, and the
@@ -133,7 +146,7 @@ def run_impl(case):
                         pass
                 else:
                     ec = EventCharacteristics(mk_lattice(case))
-                v = ec.eccentricity(case["hn"], case["m"])
+                v = ec.eccentricity(harm(case, "hn"), case["m"])
         except Exception as e:
             return {"status": "err", "err": errname(e)}
     v = complex(v)
@@ -149,12 +162,17 @@ def points_of(case):
             w = 1.0 if case["weight"] == "number" else p.get(WATTR[case["weight"]])
             pts.append((float(p["x"]), float(p["y"]), float("nan") if w is None else float(w)))
         return pts
-    L = mk_lattice(case)
-    pts = []
-    for i, j, k in np.ndindex(L.grid_.shape):
-        x, y, _ = L.get_coordinates(i, j, k)
-        pts.append((float(x), float(y), float(L.grid_[i, j, k])))
-    return pts
+    # the nodes of the lattice and their densities from the case data (evenly spaced nodes between the stated extents, densities
+    # in C order), not from the Lattice3D object the implementation reads them from
+    xs, ys, dens = lattice_nodes(case)
+    return [(xs[i], ys[j], float(dens[i, j, k])) for i, j, k in np.ndindex(dens.shape)]
+
+
+def lattice_nodes(case):
+    e, n = case["ext"], [int(v) for v in case["n"]]
+    xs = [float(v) for v in np.linspace(float(e[0]), float(e[1]), n[0])]
+    ys = [float(v) for v in np.linspace(float(e[2]), float(e[3]), n[1])]
+    return xs, ys, np.array(case["dens"], dtype=float).reshape(n)
 
 
 def defining(pts, n, m):
@@ -264,6 +282,14 @@ def gen_particles(rng, small=False):
     m = rng.choice([None, None, None, 1, 2, 3, 4, 5, 6])
     w = rng.choice(WEIGHTS)
     case = {"kind": "particles", "n": n, "m": m, "weight": w, "particles": ps, "direct": rng.random() < 0.3}
+    if k >= 2 and rng.random() < 0.15:
+        j = rng.randrange(1, k)
+        ps[j] = dict(ps[0])
+        case["same_object"] = [[0, j]]
+    if rng.random() < 0.25:
+        case["container"] = "ndarray"
+    if rng.random() < 0.15:
+        case["n_as"] = "np"
     r = rng.random()
     if r < 0.03:
         case["n"] = rng.choice([0, -1])
@@ -289,6 +315,8 @@ def gen_lattice(rng):
         dens = [d if rng.random() < 0.8 else -d for d in dens]
     case = {"kind": "lattice", "hn": rng.choice([1, 2, 2, 3, 4, 5]), "m": rng.choice([None, None, 1, 2, 3, 4]),
             "ext": ext, "n": n, "dens": dens}
+    if rng.random() < 0.15:
+        case["n_as"] = "np"
     r = rng.random()
     if r < 0.25:
         case["late_fill"] = rng.choice(["zeros", "other"])
@@ -400,8 +428,7 @@ def coq_case(case, got):
             ps.append(f"(mk_obs {{| s_x := {q(p['x'])}; s_y := {q(p['y'])}; s_r := {q(radius(p['x'], p['y']))}; s_E := {oq(p.get('E'))}; "
                       f"s_charge := {oq(p.get('charge'))}; s_baryon := {oq(p.get('baryon_number'))}; s_strange := {oq(p.get('strangeness'))} |}})")
         return (f"(cmp (q_ecc_from_particles {z(case['n'])} {mt} {C.coq_str(case['weight'])} {coq_list(ps)}) {expect_term(got)})")
-    L = mk_lattice(case)
-    xs, ys = [float(v) for v in L.x_values_], [float(v) for v in L.y_values_]
+    xs, ys, _ = lattice_nodes(case)                 # node coordinates from the case, not from the object under test
     tab = coq_list([f"({q(x)}, {q(y)}, {q(radius(x, y))})" for x in xs for y in ys])
     n = case["n"]
     return (f"(cmp (q_ecc_from_lattice {z(case['hn'])} {mt} {coq_list([q(v) for v in xs])} {coq_list([q(v) for v in ys])} {n[2]}%nat "
